@@ -132,7 +132,7 @@ def self_test(base, wl, sc, tier, log):
         if 'harness_error' in a:
             continue
         seen = set()
-        for stepi, iid, dg in a['ref_digests']:
+        for stepi, iid, dg in [e[:3] for e in a['ref_digests']]:
             call = j['steps'][stepi]['call']
             key = (iid, json.dumps(call['options']), call.get('param'))
             if key in seen:
@@ -187,6 +187,8 @@ class Agg:
         self.hashseeds = set()
         self.state_windows = 0
         self.aimed = 0
+        self.refs_by_key = {}
+        self.ref_workers = {}
 
     def add(self, job, res):
         if 'harness_error' in res:
@@ -216,6 +218,11 @@ class Agg:
         self.refs += st['refs']
         self.census += st['census_runs']
         self.line_events += st['line_events']
+        for ent in res.get('ref_digests', []):
+            if len(ent) >= 4:
+                d = self.refs_by_key.setdefault(ent[3], {})
+                d.setdefault(ent[2], (job['seed'], ent[0], ent[1]))
+                self.ref_workers.setdefault(ent[3], set()).add(job['seed'])
         self.state_windows += st.get('state_windows', 0)
         self.aimed += st.get('aimed_crashes', 0)
         self.arms[job['arm']] = self.arms.get(job['arm'], 0) + 1
@@ -459,6 +466,21 @@ def main(argv=None):
         log('explored %d histories, %d calls, verdicts %s' % (agg.histories, agg.calls, agg.verdicts))
         findings = driver.load_findings()
         nviol = handle_mismatches(agg, sc, tier, findings, log)
+        # every reference of one (content, options) is 'the same input alone in a
+        # fresh interpreter': they were computed by different processes at
+        # different times in different directories and must all agree
+        ref_conflicts = {k: v for k, v in agg.refs_by_key.items() if len(v) > 1}
+        for k, v in sorted(ref_conflicts.items())[:3]:
+            path = driver.replay_path(PID, 'refconflict-' + k)
+            with open(path, 'w') as fh:
+                json.dump({'property': PID, 'kind': 'reference-disagreement', 'key': k,
+                           'digests': {d: list(w) for d, w in v.items()},
+                           'note': 'two pristine interpreters gave different records for the same content and '
+                                   'options; see the named seeds/steps/inputs'}, fh, indent=1)
+            print('VIOLATION property=%s replay=%s' % (PID, path))
+            print('  two pristine interpreters disagree on the same content+options: %s' % json.dumps(
+                {d: list(w) for d, w in v.items()}))
+            nviol += 1
         for path in regress['reproduced']:
             print('VIOLATION property=%s replay=%s' % (PID, path))
             print('  a defect recorded as fixed has returned')
@@ -498,6 +520,10 @@ def main(argv=None):
                 'in_flight_state_windows_seen': agg.state_windows,
                 'crashes_aimed_into_state_windows': agg.aimed,
                 'reference_hash_seed': 0,
+                'distinct_reference_keys': len(agg.refs_by_key),
+                'reference_keys_computed_by_several_interpreters': sum(
+                    1 for v in agg.ref_workers.values() if len(v) > 1),
+                'reference_disagreements': len(ref_conflicts),
                 'verdicts': agg.verdicts,
                 'self_test': st, 'seam_notes': sorted(agg.notes),
                 'fixed_defect_replays': regress,
